@@ -123,7 +123,8 @@ def make_docs(ctx, n, shipped=True):
         # documents on which the loader records errors: dangling / padded references, vendor elements directly
         # inside <node> (in a namespace chosen against the root URIs)
         x, d = xmldocs.gen_document(rng, rng.choice([1, 1, 2]), controllers=True, animations=True, foreign=True,
-                                    foreign_ns=adversarial_foreign(rng), foreign_in_nodes=(i % 2 == 0))
+                                    foreign_ns=adversarial_foreign(rng), foreign_in_nodes=(i % 2 == 0),
+                                    unsupported_native=(i % 3 != 1))
         text = x.decode('utf-8')
         docs.append({'xml': break_refs(text, rng) if i % 3 else text, 'ignore': True, 'broken': True})
     if shipped:
